@@ -64,7 +64,17 @@ SnapperClauses(e) ==
       nearest    |-> e.exc = "" => SnapOK(divs, e.n, e.d, e.out.n, e.out.d),
       idempotent |-> e.exc = "" => e.again.n * e.out.d = e.out.n * e.again.d ]
 
+(* EXTENSION records (e.ext = TRUE): rejected ones are reported as observations, never as violations of C10 *)
+BpmOpsClauses(e) ==
+    CASE e.op = "current_bpm" -> [ current |-> IF CurrentIx(e.otl, e.t) = 0 THEN e.exc = "IndexError"
+                                               ELSE e.exc = "" /\ e.out_t = e.otl[CurrentIx(e.otl, e.t)].t /\ e.out_bl = e.otl[CurrentIx(e.otl, e.t)].bl ]
+      [] e.op = "snap_offsets" -> [ snap_offsets |-> e.exc = "" /\ { e.out[i] : i \in DOMAIN e.out } = SnapOffsets(e.otl, e.nths, e.last)
+                                                     /\ Len(e.out) = Cardinality(SnapOffsets(e.otl, e.nths, e.last)) ]
+      [] e.op = "ave_bpm" -> [ ave |-> e.exc = "" /\ Abs(e.out100 * ((e.last - e.otl[1].t) \div 1000) - WeightedSum(e.otl, e.last, 1))
+                                                        <= (e.last - e.otl[1].t) \div 1000 ]
+
 Clauses(e) == CASE e.op = "offsets" -> OffsetsClauses(e)
+                [] e.op \in {"current_bpm", "snap_offsets", "ave_bpm"} -> BpmOpsClauses(e)
                 [] e.op = "starts"  -> StartsClauses(e)
                 [] e.op = "snaps"   -> SnapsClauses(e)
                 [] e.op = "beats"   -> BeatsClauses(e)
